@@ -66,7 +66,25 @@ impl Monitor for Mon {
             if let Some(v) = panic_violation(&rec, w, "transmit probe after the history") {
                 return Some(v);
             }
-            let txs = tx_events(w, &rec);
+            let mut txs = tx_events(w, &rec);
+            let mut rec = rec;
+            if txs.is_empty() && rec.result == OpResult::TooLarge {
+                // The device found no room for the one byte (queued MAC answers at a data rate with a small frame):
+                // "can still transmit" does not promise room for application data - a frame without payload, which
+                // flushes the answers, must go out.
+                stats.bump("probe.probe-payload-refused-empty-frame-sent");
+                for (j, port) in [1u8, 0].into_iter().enumerate() {
+                    let op = Op::Send { port, len: 0, confirmed: false, txn: Txn::default() };
+                    rec = w.step(base + 3 + 2 * k + j, &op);
+                    if let Some(v) = panic_violation(&rec, w, "transmit probe after the history") {
+                        return Some(v);
+                    }
+                    txs = tx_events(w, &rec);
+                    if !txs.is_empty() {
+                        break;
+                    }
+                }
+            }
             if txs.is_empty() {
                 if rec.result == OpResult::SessionExpired {
                     // nothing left to transmit in this session; a re-join must work
